@@ -21,7 +21,10 @@ CONSTANTS MaxLen
 Ops == {"set_masks", "freeze_features", "freeze_rf", "freeze_dilation", "train_net_only", "train_nas_only",
         "train_net_and_nas", "summary", "cost", "continuous_cost", "discrete_cost",
         "train_mode_roundtrip", "export",
-        "respec", "respec_switch"}      \* cost_specification re-assigned (same spec / another one and back)
+        "respec", "respec_switch",      \* cost_specification re-assigned (same spec / another one and back)
+        "fork"}                         \* copy.deepcopy of the wrapper: the history goes on with the COPY while the original is
+                                        \* searched further (its masks, switches and modes change); the copy's state is the
+                                        \* state at the fork, whatever happens to the original afterwards
 
 VARIABLES masks, sw, rg, dcost, hist
 
